@@ -20,7 +20,7 @@ def run(tier):
                       "work bound: a node occurrence may be traversed once per enclosing PaintGlyph plus once"]
     wd = vlib.workdir(PID)
     vlib.stage_specs(wd, "colr", "common")
-    fams = ["3", "4", "chains"]
+    fams = ["3", "4", "clips", "chains"]
     for fam in fams:
         r = vlib.run_tlc(wd, "PaintTraverseMC", cfg="PaintTraverseMC_%s.cfg" % fam, workers=8, out_name=fam + ".out", timeout=3000)
         ck.add_tlc("tlc:graphs-" + fam, r)
